@@ -328,6 +328,34 @@ def d3_reader_writer(ctx):
     lsep_w = joins[0].func.value.value if joins else None
     ctx.check(lsep_r is not None and lsep_r == lsep_w, wr, joins[0] if joins else wr.node, f"list sep reader={lsep_r!r} writer={lsep_w!r}",
               "list separator agrees", f"list separator differs: reader {lsep_r!r}, writer {lsep_w!r}", key="list-sep")
+    # list elements are written exactly: str(int(v)) / str(v) / repr(v) / '{:d}'; a float format (g, e, .Nf) keeps 6 significant digits only
+    for jc in joins:
+        if not jc.args:
+            continue
+        comp = jc.args[0]
+        elt = comp.elt if isinstance(comp, (ast.ListComp, ast.GeneratorExp)) else None
+        if elt is None and isinstance(comp, ast.Call) and call_name(comp) == "map" and comp.args:
+            elt = ast.Call(func=comp.args[0], args=[ast.Name(id="v", ctx=ast.Load())], keywords=[])
+        if elt is None:
+            raise AnalysisError(f"write_meta_data: list serialisation `{src(jc)[:60]}` not understood")
+        verdict = None
+        if isinstance(elt, ast.Call) and call_name(elt) in ("str", "repr") and elt.args:
+            verdict = "exact"
+        elif isinstance(elt, ast.JoinedStr):
+            fv = [x for x in elt.values if isinstance(x, ast.FormattedValue)]
+            specs = ["".join(c.value for c in x.format_spec.values if isinstance(c, ast.Constant)) if x.format_spec is not None else "" for x in fv]
+            verdict = "exact" if all(sp in ("", "d") for sp in specs) else "lossy:" + ",".join(sp for sp in specs if sp not in ("", "d"))
+        elif isinstance(elt, ast.BinOp) and isinstance(elt.op, ast.Mod) and isinstance(elt.left, ast.Constant) and isinstance(elt.left.value, str):
+            verdict = "exact" if elt.left.value in ("%d", "%s", "%r", "%i") else "lossy:" + elt.left.value
+        elif isinstance(elt, ast.Call) and call_name(elt) == "format":
+            a = elt.args[1] if len(elt.args) > 1 else None
+            sp = a.value if isinstance(a, ast.Constant) else None
+            verdict = "exact" if sp in ("", "d", None) and a is None or sp in ("", "d") else f"lossy:{sp}"
+        if verdict is None:
+            raise AnalysisError(f"write_meta_data: list element formatting `{src(elt)[:60]}` not understood")
+        ctx.check(verdict == "exact", wr, jc, elt, "list elements are written with all their digits",
+                  f"list elements are written with `{src(elt)}` ({verdict}): values with more than 6 significant digits are rounded / written in exponent "
+                  "form and come back as a string: write -> read is no longer the identity", key="list-digits")
     # value kinds: parser yields str | float | list[float]; writer must branch on list and float
     kinds = set()
     for c2 in find(wr.node, ast.Call, lambda c2: call_name(c2) == "isinstance" and len(c2.args) == 2):
@@ -476,7 +504,14 @@ def d7_type_fs(ctx):
               key="ns")
 
 
+def dS_shared(ctx):
+    from sa.common import rule_no_shared_mutation
+    rule_no_shared_mutation(ctx, "DS", ['spikeglx.read_meta_data', 'spikeglx.write_meta_data', 'spikeglx._conversion_sample2v_from_meta', 'spikeglx._get_sync_trace_indices_from_meta', 'spikeglx._get_max_int_from_meta', 'spikeglx._get_neuropixel_version_from_meta'],
+                            'metadata-derived values of a later call are those an earlier call modified')
+
+
 def run(ctx):
+    ctx.run(dS_shared)
     ctx.run(d1_sync_gain)
     ctx.run(d2_ap_lf)
     ctx.run(d3_reader_writer)
